@@ -262,7 +262,7 @@ package tree
 //@   requires [C06] lock: heldW(n)
 //@   requires n != nil && n.root != nil && (n.root.hasTrace ==> !in("TRACE", n.handlers))
 //@   modifies []string:
-//@   ensures [C04] mask: n.methodIndex == maskOf(dom(n.handlers)) + ((n.root.hasTrace && len(n.handlers) > 0) ? 64 : 0)
+//@   ensures [C04,C18] mask: n.methodIndex == maskOf(dom(n.handlers)) + ((n.root.hasTrace && len(n.handlers) > 0) ? 64 : 0)
 //@   ensures [C04] empty: len(n.handlers) == 0 ==> n.methodIndex == 0
 //@   ensures [C07] memo-read-only: dom(methodIndexes) == old(dom(methodIndexes)) && vals(methodIndexes) == old(vals(methodIndexes))
 //@   atcall tree.buildMethodIndexes [C07] present: in(arg0, methodIndexes)
